@@ -26,6 +26,7 @@ Definition bias_deg (u0 u1 u2 : R) : list R := scale3 (Pdeg / 200) [u0 - 1/2; u1
 Definition bias_rad (u0 u1 u2 : R) : list R := scale3 (d2r * d2r) (bias_deg u0 u1 u2).
 
 Ltac gyro_close :=
+  let P := fresh "P" in let HPI := fresh "HPI" in
   assert (HPI : PI <> 0) by (pose proof PI_RGT_0; lra);
   try destr_dec; unfold_c20;
   match goal with |- Val ?l = _ => match l with context [Rmax ?a ?b - ?c] => set (P := Rmax a b - c) end end;
